@@ -28,7 +28,7 @@ def ne_te(rec):
     return (1e21, 5.0) if rec.get("regime") == "mixed" else (5e19, 50.0)
 
 
-VIEWS = {1: (1.0, 0.0, 0.0), 2: (-1.0, 0.0, 0.0), 3: (0.0, 1.0, 0.0)}
+VIEWS = {1: (1.0, 0.0, 0.0), 2: (-1.0, 0.0, 0.0), 3: (0.0, 1.0, 0.0), 4: (1.0, 0.0, 0.0), 5: (0.0, 1.0, 0.0)}
 EMITTER = {"d": ("deuterium", 0, (3, 2)), "c": ("carbon", 5, (8, 7))}
 
 
@@ -219,7 +219,7 @@ def run_model(rec, pol, lo, hi, bins):
     obj, beam = build(rec, pol)
     sp = Spectrum(lo, hi, bins)
     if beam is None:
-        out = obj.add_line(R0, Point3D(0.1, 0.2, 0.3), Vector3D(*view_of(rec)), sp)
+        out = obj.add_line(R0, Point3D(0.1, 0.2, 0.3), Vector3D(*view_of(rec)) * float(rec.get("dir_length", 1)), sp)
     else:
         out = obj.add_line(R0, Point3D(0, 0, 0.5), Point3D(0.1, 0.2, 0.3), Vector3D(0, 0, 1), Vector3D(1, 0, 0), sp)
     return [float(x) for x in out.samples]
